@@ -12,7 +12,7 @@ def cases(draw, procs=False):
     spec = draw(gen.worlds(max_layers=4, min_layers=1 if procs else 0, hooks='layer', faults=faults,
                            nie=35 if procs else 0, kinds=gen.ALL_KINDS, max_modules=2, depth=1, max_tests=4,
                            weights_good=35, layer_decl=80, explicit_unit=True, max_children=3,
-                           excs=gen.ALL_EXCS + gen.ODD_EXCS, fault_excs=gen.ALL_EXCS[:12] + gen.ODD_EXCS, sub_skip=True))
+                           excs=gen.ALL_EXCS + gen.ODD_EXCS, fault_excs=gen.ALL_EXCS[:12] + gen.ODD_EXCS + ('SkipTest', 'AssertionError'), sub_skip=True))
     if draw(st.integers(0, 3)) == 0:
         spec = draw(gen.shaped_world(kinds=gen.ALL_KINDS, nie=procs))
     for L in spec['layers']:
@@ -116,6 +116,40 @@ def oracle(spec, opts, run):
                     break
         if 'flaky' in raised.values():
             labels.append('raises-in-one-iteration-only')
+    # "... or layer": a layer setUp / tearDown that raised (anything but the tear-down's NotImplementedError) is in the
+    # runner's error records under that layer's name, and the verdict says so
+    lraised = []
+    for e in run.trace:
+        if e['ev'] == 'L' and e.get('ph') == 'raise' and e['h'] in ('setUp', 'tearDown') and \
+                not (e['h'] == 'tearDown' and e.get('exc') == 'NIE'):
+            lraised.append((e['layer'], e['h'], e.get('exc')))
+    if lraised:
+        labels.append('layer-hook-raised')
+        if run.failed is False:
+            viol.append(('C04/not-recorded/layer-verdict', 'layer hook %s.%s raised %s but the run reports success'
+                         % lraised[0]))
+        if run.runner is not None and len(traceana.by_pid(run.trace)) <= 1:
+            recorded = []
+            for entry in list(run.runner.errors) + list(run.runner.failures):
+                try:
+                    recorded.append(str(entry[0]))
+                except Exception:  # noqa: BLE001
+                    pass
+            idx = {L['name']: i for i, L in enumerate(spec['layers'])}
+
+            def derived(i):
+                out = {i}
+                for j, L in enumerate(spec['layers']):     # (bases always have smaller indices)
+                    if any(b in out for b in L['bases']):
+                        out.add(j)
+                return out
+            for lname, hook, exc in lraised:
+                # (a base's failing setUp is recorded against the layer that was being set up on top of it)
+                names = [spec['layers'][j]['name'] for j in (derived(idx[lname]) if hook == 'setUp' else {idx[lname]})]
+                if not any(r.startswith('Layer: ') and r.endswith('.%s.%s' % (nm, hook)) for r in recorded for nm in names):
+                    viol.append(('C04/not-recorded/layer', 'layer %s: %s raised %s but no "Layer: ...%s.%s" entry is among the '
+                                 'errors the runner recorded (%s)' % (lname, hook, exc, lname, hook, recorded[:4])))
+                    break
     if len(p.blocks) >= 2 and p.total is None:
         viol.append(('C04/total-missing', 'no "Total:" line although %d layers ran' % len(p.blocks)))
     kinds = common.count_kinds(spec)
